@@ -784,14 +784,18 @@ func specHexVal(b byte) byte {
 // returns tape(cursor) and advances the cursor by one; Peek does not move it;
 // refilling the buffer (any number of bytes, also zero) keeps both facts.
 //@ define cursor(s) = tpos() - avail(s)
-//@ define onTape(s) = (forall k :: 0 <= k && k < len(s.peek) ==> view(s, k) == tape(tpos() - avail(s) + k)) && (forall k :: 0 <= k && k < s.used - s.pos ==> s.buf[s.pos+k] == tape(tpos() - (s.used - s.pos) + k))
+//@ define onTape(s) = (forall k :: 0 <= k && k < len(s.peek) ==> view(s, k) == tape(tpos() - avail(s) + k)) && (forall j :: s.pos <= j && j < s.used ==> s.buf[j] == tape(tpos() - s.used + j))
 //@ define bufCursor(s) = tpos() - (s.used - s.pos)
-//@ define bufOnTape(s) = forall k :: 0 <= k && k < s.used - s.pos ==> s.buf[s.pos+k] == tape(tpos() - (s.used - s.pos) + k)
+//@ define bufOnTape(s) = forall j :: s.pos <= j && j < s.used ==> s.buf[j] == tape(tpos() - s.used + j)
 
 //@ func (*scanner).readByteRaw
 //@ reveal C12.refill.tape
-//@ ensures opaque [C12.raw.tape] old(!s.regurgitate && bufOnTape(s)) && result1 == nil ==> result0 == tape(old(bufCursor(s))) && bufCursor(s) == old(bufCursor(s)) + 1 && bufOnTape(s) && !s.regurgitate && sameslice(s.peek, old(s.peek)) && ref(s.buf) == old(ref(s.buf)) && onlyrefs(s.buf)
-//@ loop 1 invariant [C12.raw.tape] old(!s.regurgitate && bufOnTape(s)) ==> bufCursor(s) == old(bufCursor(s)) && bufOnTape(s) && !s.regurgitate && sameslice(s.peek, old(s.peek)) && ref(s.buf) == old(ref(s.buf)) && onlyrefs(s.buf)
+//@ ensures opaque [C12.raw.tape] old(!s.regurgitate && bufOnTape(s)) && result1 == nil ==> result0 == tape(old(bufCursor(s))) && bufCursor(s) == old(bufCursor(s)) + 1 && !s.regurgitate && sameslice(s.peek, old(s.peek)) && ref(s.buf) == old(ref(s.buf))
+//@ ensures opaque [C12.raw.tape] old(!s.regurgitate && bufOnTape(s)) && result1 == nil ==> bufOnTape(s)
+//@ ensures opaque [C12.raw.tape] old(!s.regurgitate && bufOnTape(s)) && result1 == nil ==> onlyrefs(s.buf)
+//@ loop 1 invariant [C12.raw.tape] old(!s.regurgitate && bufOnTape(s)) ==> bufCursor(s) == old(bufCursor(s)) && !s.regurgitate && sameslice(s.peek, old(s.peek)) && ref(s.buf) == old(ref(s.buf))
+//@ loop 1 invariant [C12.raw.tape] old(!s.regurgitate && bufOnTape(s)) ==> bufOnTape(s)
+//@ loop 1 invariant [C12.raw.tape] old(!s.regurgitate && bufOnTape(s)) ==> onlyrefs(s.buf)
 
 //@ func (*scanner).readByte
 //@ reveal C12.raw.tape
@@ -799,7 +803,8 @@ func specHexVal(b byte) byte {
 
 //@ func (*scanner).Next
 //@ reveal C12.byte.tape
-//@ ensures opaque [C12.next.value] old(viewOK(s) && viewSep(s) && onTape(s)) && result1 == nil ==> result0 == tape(old(cursor(s))) && cursor(s) == old(cursor(s)) + 1 && viewOK(s) && viewSep(s)
+//@ ensures opaque [C12.next.value] old(viewOK(s) && viewSep(s) && onTape(s) && len(s.peek) > 0 && view(s, 0) == tape(cursor(s))) && result1 == nil ==> result0 == tape(old(cursor(s))) && cursor(s) == old(cursor(s)) + 1 && viewOK(s) && viewSep(s)
+//@ ensures opaque [C12.next.value] old(viewOK(s) && viewSep(s) && onTape(s) && len(s.peek) == 0) && result1 == nil ==> result0 == tape(old(cursor(s))) && cursor(s) == old(cursor(s)) + 1 && viewOK(s) && viewSep(s)
 //@ ensures opaque [C12.next.tape.peeked] old(viewOK(s) && viewSep(s) && onTape(s) && len(s.peek) > 0) && result1 == nil ==> onTape(s)
 //@ ensures opaque [C12.next.tape.buffer] old(viewOK(s) && viewSep(s) && onTape(s) && len(s.peek) == 0) && result1 == nil ==> onTape(s)
 
